@@ -8,6 +8,7 @@ import SyslModel.Core.Proto
 import SyslModel.Path.Proto
 import SyslModel.Closure.Proto
 import SyslModel.Indent.Proto
+import SyslModel.DbScript.Proto
 
 open Lean (Json)
 open SyslModel
@@ -16,6 +17,7 @@ def dispatch (op : String) (j : Json) : Option Json :=
   if op.startsWith "path." then Path.handle op j
   else if op.startsWith "closure." then Closure.handle op j
   else if op.startsWith "indent." then Indent.handle op j
+  else if op.startsWith "db." then DbScript.handle op j
   else none
 
 def handleLine (line : String) : String :=
